@@ -393,6 +393,28 @@ Definition isdigit (s : string) : bool := match s with EmptyString => false | _ 
 Definition count_digit_keys {A} (d : list (string * A)) : Z :=
   Z.of_nat (List.length (filter (fun kv => isdigit (fst kv)) d)).
 
+(* _instance_is_exact: can calling the class with the arguments as keywords rebuild a parameter-free Model?  every attribute a constructor
+   argument, no tuple prior, every model object it holds a Model that is exact itself (no Collection) *)
+Fixpoint inst_exact (n : node) : bool :=
+  match n with
+  | NModel _ _ _ cargs attrs =>
+      (fix go (l : list (string * node)) : bool :=
+         match l with
+         | [] => true
+         | kv :: r =>
+             match kv with
+             | (k, v) =>
+                 mem k cargs &&
+                 (match v with
+                  | NTuple _ _ | NColl _ _ _ | NPrior _ _ _ _ _ _ | NBinop _ _ _ _ _ _ | NUnop _ _ _ _ => false
+                  | NModel _ _ _ _ _ => inst_exact v
+                  | _ => true
+                  end) && go r
+             end
+         end) attrs
+  | _ => true
+  end.
+
 Fixpoint basename_aux (s acc : string) : string :=
   match s with
   | EmptyString => acc
@@ -439,16 +461,17 @@ Fixpoint reload (n : node) : option node :=
       | _, _ => None
       end
   | NUnop mid cname pn a =>
-      (* a ModifiedPrior never survives: ModifiedPrior.dict() leaves a bare Prior operand unserialised
-         (json.dumps raises); with any other operand ModelObject.from_dict swallows a KeyError and the
-         attribute silently keeps what the constructor of the model put there (a default prior, or the
-         ConfigException placeholder whose walk raises) *)
-      None
+      (* ModifiedPrior.dict() stores its name and its operand; from_dict rebuilds it under the same name.
+         (Before 8d274ac a ModifiedPrior never survived: a bare Prior operand was left unserialised, any other
+         operand was silently dropped by a swallowed KeyError.) *)
+      if modified_prior_storable
+      then match reload a with Some a' => Some (NUnop mid cname pn a') | None => None end
+      else None
   | NModel mid lbl cls cargs attrs =>
       match all_some ((fix go (l : list (string * node)) : list (string * option node) :=
                          match l with [] => [] | kv :: r => match kv with (k, v) => (k, reload v) :: go r end end) attrs) with
       | Some attrs' =>
-          if has_prior n then Some (NModel mid lbl cls cargs attrs')
+          if has_prior n || (instance_only_when_exact && negb (inst_exact n)) then Some (NModel mid lbl cls cargs attrs')
           else (* type "instance": rebuilt by calling the class with the arguments as keywords *)
                match by_ctor cargs attrs' with
                | Some a => Some (NInst (basename cls) cargs None a)
